@@ -80,12 +80,25 @@ class Line(GeoBody):
 
     def __hash__(self):
         """Return hash of a Line"""
+        # Equal lines can be given by any of their points and by any parallel
+        # direction vector, so the hash uses the unit direction with a fixed
+        # sign and the point of the line that is closest to the origin
+        dv = self.dv.normalized()
+        for component in dv:
+            if abs(component) > get_eps():
+                if component < 0:
+                    dv = -dv
+                break
+        foot = self.sv - dv * (self.sv * dv)
         return hash(
             (
                 "Line",
-                round(self.dv[0], SIG_FIGURES),
-                round(self.dv[1], SIG_FIGURES),
-                round(self.dv[0] * self.sv[1] - self.dv[1] * self.sv[0], SIG_FIGURES),
+                round(dv[0], SIG_FIGURES),
+                round(dv[1], SIG_FIGURES),
+                round(dv[2], SIG_FIGURES),
+                round(foot[0], SIG_FIGURES),
+                round(foot[1], SIG_FIGURES),
+                round(foot[2], SIG_FIGURES),
             )
         )
 
